@@ -574,11 +574,48 @@ def insitu_run(tdgl, a, tmp):
     dev.mesh = base.mesh
     REQ_SITES = 1.0 * np.asarray(base.mesh.sites)            # positions in length units: xi (asked for: 1.0) times the mesh sites
 
+    # decoys: further Layers/Devices with OTHER (gamma, u), built after the simulated device and before the solve (a sweep that
+    # builds all its devices first): the run must still use the values asked for ITS layer
+    decoys = []
+    for g, uu in a.get("decoys", []):
+        dl = tdgl.Layer(coherence_length=1.0, london_lambda=2.0, thickness=0.1, gamma=g, u=uu)
+        decoys.append(tdgl.Device("decoy", layer=dl, film=base.film, holes=base.holes, terminals=list(base.terminals),
+                                  probe_points=base.probe_points, length_units=base.length_units))
+
+    # epsilon as the USER's function; the oracle's epsilon is the harness's OWN evaluation of it at xi * sites and the step time
+    T_EPS = a.get("epsilon_ramp")
+    form = a.get("epsilon_form", "float") if T_EPS else None
+
+    def bump(r, t):
+        return 0.6 * min(1.0, t / T_EPS) * float(np.exp(-((r[0] - 0.5) ** 2 + r[1] ** 2)))
+
+    if form == "float":
+        def eps_fn(r, *, t):
+            return 1.0 - bump(r, t)
+    elif form == "int-mixed":          # the Python int 1 away from the suppressed region (site 0 is there), fractional floats inside
+        def eps_fn(r, *, t):
+            return 1 if (r[0] - 0.5) ** 2 + r[1] ** 2 > 1.0 else 1.0 - bump(r, t)
+    elif form == "numpy-scalar":       # numpy scalars of mixed types
+        def eps_fn(r, *, t):
+            return np.int64(1) if (r[0] - 0.5) ** 2 + r[1] ** 2 > 1.0 else np.float32(1.0 - bump(r, t))
+    elif form == "vectorized":
+        def eps_fn(r, *, t, vectorized=True):
+            r = np.atleast_2d(r)
+            return 1.0 - 0.6 * min(1.0, t / T_EPS) * np.exp(-((r[:, 0] - 0.5) ** 2 + r[:, 1] ** 2))
+    elif form == "static-int-mixed":   # position dependent, not time dependent
+        def eps_fn(r):
+            return 1 if (r[0] - 0.5) ** 2 + r[1] ** 2 > 1.0 else 0.7
+    elif form is not None:
+        raise ValueError(form)
+
     def requested_epsilon(time):
-        if a.get("epsilon_ramp"):
-            T = a["epsilon_ramp"]
-            return np.array([1.0 - 0.6 * min(1.0, time / T) * float(np.exp(-((r[0] - 0.5) ** 2 + r[1] ** 2))) for r in REQ_SITES])
-        return float(a["epsilon"] if a.get("epsilon") is not None else 1.0) * np.ones(len(REQ_SITES))
+        if form is None:
+            return float(a["epsilon"] if a.get("epsilon") is not None else 1.0) * np.ones(len(REQ_SITES))
+        if form == "vectorized":
+            return np.asarray(eps_fn(REQ_SITES, t=time), dtype=float)
+        if form == "static-int-mixed":
+            return np.array([float(eps_fn(r)) for r in REQ_SITES])
+        return np.array([float(eps_fn(r, t=time)) for r in REQ_SITES])
 
     orig_update, orig_sps = TDGLSolver.update, TDGLSolver.solve_for_psi_squared
     attempts = []
@@ -633,11 +670,7 @@ def insitu_run(tdgl, a, tmp):
             kw["applied_vector_potential"] = ConstantField(a.get("field", 0.0), field_units="mT", length_units="um") * LinearRamp(tmin=0, tmax=a["field_ramp"])
         else:
             kw["applied_vector_potential"] = a.get("field", 0.0)
-        if a.get("epsilon_ramp"):
-            T = a["epsilon_ramp"]
-
-            def eps_fn(r, *, t, T=T):
-                return 1.0 - 0.6 * min(1.0, t / T) * float(np.exp(-((r[0] - 0.5) ** 2 + r[1] ** 2)))
+        if form is not None:
             kw["disorder_epsilon"] = eps_fn
         elif a.get("epsilon") is not None:
             kw["disorder_epsilon"] = a["epsilon"]
@@ -673,10 +706,16 @@ def insitu_run(tdgl, a, tmp):
     first_of_phase = {}
     for n, r in enumerate(records):
         first_of_phase.setdefault(r["phase"], n)
+    must = {n for n, r in enumerate(records) if n in first_of_phase.values() or r["step"] <= 1}
+    cand = [n for n, r in enumerate(records) if (n % stride == 0 or r["refused"]) and n not in must]
+    cap = a.get("max_traced")
+    if cap is not None and len(must) + len(cand) > cap:
+        room = max(0, cap - len(must))
+        cand = [cand[int(round(k * (len(cand) - 1) / max(1, room - 1)))] for k in range(room)] if room else []
+    chosen = must | set(cand)
     for n, r in enumerate(records):
         retried = len(r["refused"]) > 0
-        keep = (n % stride == 0) or retried or n in first_of_phase.values() or r["step"] <= 1
-        if not keep:
+        if n not in chosen:
             continue
         label = f"{r['phase']}/step{r['step']}"
         ev, worst = _site_obs(r["psi_n"], r["mu_n"], r["eps"], r["gamma"], r["u"], r["dt"], r["action"], r["p"], r["s"], False)
@@ -692,5 +731,8 @@ def insitu_run(tdgl, a, tmp):
             ev, _ = _site_obs(R["psi"], R["mu"], R["eps"], R["gamma"], R["u"], R["dt"], R["action"], None, None, True)
             traces.append(dict(refused=True, ev=ev, family="insitu-refused", level="attempt", label=label, retried=True, iterations=r["iterations"],
                                mu_max=float(np.abs(R["mu"]).max()), worst=0, params=dict(run=a["label"], dt=R["dt"])))
-    return dict(run=a["label"], requested_gamma=REQ_GAMMA, requested_u=REQ_U, u_passed=a.get("u") is not None, traces=traces, n_updates=len(records), n_retried=sum(1 for r in records if r["refused"]),
+    eps_used = requested_epsilon(records[-1]["time"]) if records else np.ones(1)
+    return dict(run=a["label"], requested_gamma=REQ_GAMMA, requested_u=REQ_U, u_passed=a.get("u") is not None, epsilon_form=form,
+                epsilon_fractional_sites=int(np.sum((eps_used != 1.0) & (eps_used != np.round(eps_used)))),
+                decoys=[list(d) for d in a.get("decoys", [])], traces=traces, n_updates=len(records), n_retried=sum(1 for r in records if r["refused"]),
                 phases=sorted(first_of_phase), max_iterations=max((r["iterations"] for r in records), default=0))
